@@ -3,7 +3,10 @@ package checks
 import (
 	"encoding/json"
 	"fmt"
+	"sort"
 	"strings"
+
+	"golang.org/x/net/html"
 
 	"verif/harness/internal/obs"
 	"verif/harness/internal/run"
@@ -95,8 +98,76 @@ func c07Specs(c *run.Ctx) []built {
 		spec.Spec{Name: "c07-url-two-checks", Base: "new", Calls: []C{attrsOn([]string{"href"}, "", "a"),
 			{Op: "AllowURLSchemeWithCustomPolicy", Names: []string{"http"}, Fn: "never"}, {Op: "AllowURLSchemeWithCustomPolicy", Names: []string{"http"}, Fn: "always"}}},
 	)
-	out = append(out, specsByName("ugc", "cmd-ugc", "cmd-email", "links", "media", "attrs", "pattern", "pattern-bare", "foreign", "bpbr", "skipmod")...)
+	out = append(out, specsByName("ugc", "cmd-ugc", "cmd-email", "links", "media", "attrs", "pattern", "pattern-bare", "foreign", "bpbr", "skipmod", "styles", "rare-builder-forms")...)
+	// style rules in every scope and with every kind of matcher, names and enum entries spelled in mixed case
+	out = append(out,
+		spec.Spec{Name: "c07-styles-mixed-case", Base: "new", Calls: []C{els("p", "span"), {Op: "AllowElementsMatching", Re: reMy},
+			{Op: "AllowStyles", Names: []string{"Color", "FONT-family"}, Enum: []string{"Red", "GREEN", "Arial"}, Scope: "global"},
+			{Op: "AllowStyles", Names: []string{"WIDTH"}, Enum: []string{"1PX"}, Scope: "on", On: []string{"P"}},
+			{Op: "AllowStyles", Names: []string{"text-align"}, Scope: "matching", OnRe: reMy},
+			{Op: "AllowStyles", Names: []string{"color"}, Handler: "is-green", Scope: "matching", OnRe: reMyX}}},
+		spec.Spec{Name: "c07-styles-overlap", Base: "new", Calls: []C{els("p", "span"),
+			{Op: "AllowStyles", Names: []string{"color"}, Handler: "is-red", Scope: "global"},
+			{Op: "AllowStyles", Names: []string{"color"}, Enum: []string{"blue"}, Scope: "on", On: []string{"p"}},
+			{Op: "AllowStyles", Names: []string{"color"}, Re: `^(red|green)$`, Scope: "on", On: []string{"p"}},
+			{Op: "AllowStyles", Names: []string{"width", "text-align", "font-family"}, Scope: "on", On: []string{"span"}},
+			attrsGlob([]string{"style", "id"}, "")}},
+	)
 	return buildAll(out)
+}
+
+// styleWitnesses lists conforming declarations ("prop: value") for el: every value some registered matcher of the
+// property accepts, kept only if the documented precedence (C10's completeness model) keeps it as it stands.
+func styleWitnesses(v *spec.View, el string) []string {
+	if !v.StyleGoverned(el) {
+		return nil
+	}
+	defaults := map[string][]string{"color": {"red", "#00ff00"}, "text-align": {"center"}, "width": {"1px"}, "font-family": {"arial"}, "background": {"red"}}
+	props := map[string]bool{}
+	for p := range v.ElemStyle[el] {
+		props[p] = true
+	}
+	for _, ps := range v.PatStyle {
+		if ps.Re.MatchString(el) {
+			for p := range ps.Styles {
+				props[p] = true
+			}
+		}
+	}
+	for p := range v.GlobStyle {
+		props[p] = true
+	}
+	var names []string
+	for p := range props {
+		names = append(names, p)
+	}
+	sort.Strings(names)
+	var out []string
+	seen := map[string]bool{}
+	for _, prop := range names {
+		var cands []string
+		for _, r := range v.StyleRules(el, prop) {
+			switch {
+			case r.Handler != nil:
+				cands = append(cands, "red", "green", "abc")
+			case len(r.Enum) > 0:
+				cands = append(cands, r.Enum...)
+			case r.Re != nil:
+				cands = append(cands, witnesses[r.Re.String()]...)
+				cands = append(cands, "red", "green", "blue", "arial", "1px", "2px")
+			case r.Default != "":
+				cands = append(cands, defaults[r.Default]...)
+			}
+		}
+		for _, val := range cands {
+			d := prop + ": " + val
+			if !seen[d] && expectedStyle(v, el, []cssDecl{{prop, val}}) == d {
+				seen[d] = true
+				out = append(out, d)
+			}
+		}
+	}
+	return out
 }
 
 var patternCandidates = []string{"my-x", "my-xy", "my-y", "my-ab", "ui-card", "zz-top"}
@@ -167,6 +238,21 @@ func runC07(c *run.Ctx) {
 				c.Sample(map[string]string{"policy": b.S.Name, "document": doc})
 			}
 		}
+		// style attributes made of conforming declarations (one, and every ordered pair of two)
+		for _, el := range elems {
+			if rawish[el] || obs.IsVoid(el) {
+				continue
+			}
+			ws := styleWitnesses(v, el)
+			for i, a := range ws {
+				check(startTag(el, []html.Attribute{{Key: "style", Val: a}}) + "t</" + el + ">")
+				for j, b2 := range ws {
+					if i != j {
+						check(startTag(el, []html.Attribute{{Key: "style", Val: a + "; " + b2}}) + "t</" + el + ">")
+					}
+				}
+			}
+		}
 		for _, el := range elems {
 			if c.Expired() {
 				break
@@ -201,6 +287,58 @@ func runC07(c *run.Ctx) {
 						check(st + f + end)
 					}
 				}
+			}
+		}
+	}
+	// size layer: conforming documents with one very long token (text run, attribute value, data: URI). Any cap on
+	// token or document size below the largest size used here would alter one of them.
+	var sizes []int
+	for k := 10; k <= 22; k += 2 {
+		sizes = append(sizes, 1<<k-1, 1<<k, 1<<k+1)
+	}
+	sizes = append(sizes, 1000000, 3000000)
+	for _, name := range []string{"ugc", "cmd-email"} {
+		var b *built
+		for i := range bs {
+			if bs[i].S.Name == name {
+				b = &bs[i]
+			}
+		}
+		if b == nil {
+			continue
+		}
+		for _, n := range sizes {
+			if c.Expired() {
+				break
+			}
+			docs := []string{
+				"<b>" + strings.Repeat("t", n) + "</b>",
+				"<p>a</p>" + strings.Repeat("<i>t</i> ", n/16) + "<p>z</p>",
+				`<a href="http://example.com/` + strings.Repeat("a", n) + `" rel="nofollow">l</a>`,
+			}
+			if name == "cmd-email" {
+				docs = append(docs, `<img src="data:image/png;base64,`+strings.Repeat("QUJD", n/4)+`">`)
+			}
+			for _, doc := range docs {
+				if !c.Own([]byte(b.S.Name), []byte(fmt.Sprint(len(doc), doc[:12]))) {
+					continue
+				}
+				c.States++
+				out, pm := San(b.P, doc)
+				c.Eval()
+				c.Transitions++
+				c.Traces++
+				if pm != "" {
+					c.Violate("panic", "Sanitize panicked on a long document: "+pm, mkCase(b.S, []byte(doc)))
+					continue
+				}
+				c.Nontrivial([]byte(b.S.Name), []byte(fmt.Sprint(len(doc), doc[:12])))
+				if sig, what := judgeConform(b.V, doc, out); sig != "" {
+					c.Violate(sig+"|long", fmt.Sprintf("%s; policy=%s document of %d bytes starting %s came back as %d bytes", what, b.S.Name, len(doc), run.Q(doc[:40]), len(out)), mkCase(b.S, []byte(doc)))
+					c.Outcome("violation|" + sig)
+					continue
+				}
+				c.Outcome("long-document-unchanged")
 			}
 		}
 	}
